@@ -17,9 +17,9 @@ from harness.common import Check, chunks, pmap, tmap, NPROC
 from harness.formulas import FA, EX, SMT
 from harness.smt import A, I, S, V
 
-TIERS = {"quick": {"ASSGN2": (7, 24, 40, 40), "XMLISH": (6, 22, 30, 20), "NUM": (6, 14, 30, 10)},
+TIERS = {"quick": {"ASSGN2": (7, 24, 40, 40), "XMLISH": (6, 22, 30, 20), "NUM": (6, 14, 30, 10), "QUOTED": (6, 16, 40, 8)},
          "thorough": {"ASSGN2": (7, 30, 150, 250), "XMLISH": (7, 30, 100, 120), "NUM": (6, 16, 80, 60), "NULLABLE": (8, 20, 60, 40),
-                      "CSVISH": (7, 22, 80, 40)}}
+                      "CSVISH": (7, 22, 80, 40), "QUOTED": (7, 22, 100, 30)}}
 PID = "C07"
 ESC_STRINGS = ['"', "\\", "a\"b", "\n", "\t", "a\\nb", "{", "}", "[", "]", "ä", "<x>", " ", "'", "\\\"", "x y", "\U0001F600", "a\U0001F600b", "\uffff", "\u20ac"]
 
@@ -81,6 +81,8 @@ def run(chk, units=None, jobs=None):
                     srcs += [("free-nt-start", 'inside(<var>, <start>)'), ("free-nt-start", 'str.len(<start>) > 3'),
                              ("mexpr-escape", 'forall <assgn> a="{<var> l} := {<rhs> r}" in start: (= l r)'),
                              ("pred-args", 'forall <var> a in start: forall <var> b in start: (level("GE", "<stmt>", a, b) or nth("2", a, b))'),
+                             ("const-decl", 'const start: <start>; forall <var> v in start: (= v "a")'),
+                             ("const-decl", 'const c: <start>; exists <assgn> a="{<var> l} := <rhs>" in c: (= l "b")'),
                              ("numeric", 'exists int n: (count(start, "<var>", n) and str.to.int(n) > 1)'),
                              ("numeric", 'forall int n: (not count(start, "<var>", n) or str.to.int(n) < 5)')]
                 for fam, text in srcs:
